@@ -13,12 +13,11 @@ import (
 // comparer walks the type description and compares the value Unpack produced
 // with the modelled expectation, classifying each deviation.
 type comparer struct {
-	res        *harness.R
-	twin       map[uintptr]uintptr // pointer / map of the snapshot -> its twin in the target
-	unmodelled map[*field]bool
-	cfgs       map[uintptr]*model.Node // trees of the pre-filled *Config fields (by pointer in the snapshot)
-	cfgExp     map[*field]*model.Node  // modelled contents of the mentioned *Config fields
-	ctx        func() string
+	res    *harness.R
+	twin   map[uintptr]uintptr     // pointer / map of the snapshot -> its twin in the target
+	cfgs   map[uintptr]*model.Node // trees of the pre-filled *Config fields (by pointer in the snapshot)
+	cfgExp map[*field]*model.Node  // modelled contents of the mentioned *Config fields
+	ctx    func() string
 }
 
 func (k *comparer) violate(sig, path string, exp, got reflect.Value, note string) {
@@ -137,10 +136,13 @@ func (k *comparer) cmpField(f *field, pre, exp, got reflect.Value, cv *cval, pc 
 				site = "tagged-field"
 			}
 			sig := listSig(pc, site, equal(def, got, false))
+			if where == "array-elem" {
+				sig += "@" + where // a list that is an element of a fixed-size array
+			}
 			if pc.pol == "default" && pc.overridesOuter() {
 				// did the merge tag option (index-wise) lose against the policy it
-				// overrides? (what a replacing policy does to the elements of a
-				// struct list is not modelled: judged by the length alone)
+				// overrides? (a replaced struct list is also recognised by its
+				// length alone, whatever its elements inherited)
 				over := polCtx{pol: pc.over}
 				if equal((&modeler{}).mergeList(f, base, cv, pc.over), got, false) ||
 					f.kind == kSliceStruct && replaces(over) && got.Len() == len(cv.list) && got.Len() < exp.Len() {
